@@ -93,13 +93,38 @@ _MODULE_CONSTS = {}      # name -> literal tuple / list of the module under anal
 _LIST_SIZES = {}         # local list name -> length, for `(*name[k:], ...)` in the function under analysis (set by the caller)
 
 
+_DICT_KEYS = {}          # local dict name -> (keys in insertion order, value texts or None): `{"M": M, ...}`, `dict.fromkeys(<such a dict>)`
+_LOCAL_EXPRS = {}        # local name -> its single defining expression in the function under analysis (for `name + (None,) * k` with `name = tuple(...)`)
+
+
 def _list_sizes(func):
     _LIST_SIZES.clear()
+    _LOCAL_EXPRS.clear()
+    _DICT_KEYS.clear()
+    for st in ast.walk(func):
+        if isinstance(st, ast.Assign) and len(st.targets) == 1 and isinstance(st.targets[0], ast.Name):
+            v = st.value
+            if isinstance(v, ast.Dict) and v.keys and all(isinstance(k, ast.Constant) and isinstance(k.value, str) for k in v.keys):
+                _DICT_KEYS[st.targets[0].id] = ([k.value for k in v.keys], [norm(x) for x in v.values])
+    for st in ast.walk(func):
+        if isinstance(st, ast.Assign) and len(st.targets) == 1 and isinstance(st.targets[0], ast.Name):
+            v = st.value
+            if isinstance(v, ast.Call) and norm(v.func) == "dict.fromkeys" and v.args and isinstance(v.args[0], ast.Name) and v.args[0].id in _DICT_KEYS:
+                _DICT_KEYS[st.targets[0].id] = (_DICT_KEYS[v.args[0].id][0], _DICT_KEYS[v.args[0].id][1])
+            elif isinstance(v, ast.Call) and norm(v.func) == "dict.fromkeys" and v.args and isinstance(v.args[0], ast.Dict) and v.args[0].keys \
+                    and all(isinstance(k, ast.Constant) and isinstance(k.value, str) for k in v.args[0].keys):
+                _DICT_KEYS[st.targets[0].id] = ([k.value for k in v.args[0].keys], [norm(x) for x in v.args[0].values])
+    counts = {}
+    for st in ast.walk(func):
+        if isinstance(st, ast.Assign) and len(st.targets) == 1 and isinstance(st.targets[0], ast.Name):
+            counts[st.targets[0].id] = counts.get(st.targets[0].id, 0) + 1
     for st in ast.walk(func):
         if isinstance(st, ast.Assign) and len(st.targets) == 1 and isinstance(st.targets[0], ast.Name):
             v = _tuple_elements(st.value) if isinstance(st.value, (ast.List, ast.Tuple, ast.BinOp)) else None
             if v is not None:
                 _LIST_SIZES[st.targets[0].id] = len(v)
+            elif counts[st.targets[0].id] == 1 and isinstance(st.value, ast.Call) and isinstance(st.value.func, ast.Name) and st.value.func.id in ("tuple", "list"):
+                _LOCAL_EXPRS[st.targets[0].id] = st.value
 
 
 def _int_of(n):
@@ -135,6 +160,11 @@ def _tuple_elements(e):
                 if isinstance(v, ast.Name) and v.id in _LIST_SIZES:
                     out_ += [f"{v.id}[{i}]" for i in range(_LIST_SIZES[v.id])]
                     continue
+                if isinstance(v, ast.Call) and isinstance(v.func, ast.Attribute) and v.func.attr == "values" and not v.args and isinstance(v.func.value, ast.Name) \
+                        and v.func.value.id in _DICT_KEYS:
+                    # dictionary values come out in insertion order of the keys
+                    out_ += [f"{v.func.value.id}['{k}']" for k in _DICT_KEYS[v.func.value.id][0]]
+                    continue
                 sub = _tuple_elements(v)
                 if sub is None:
                     return None
@@ -142,6 +172,12 @@ def _tuple_elements(e):
             else:
                 out_.append(norm(x))
         return out_
+    if isinstance(e, ast.Name) and e.id in _LOCAL_EXPRS:
+        v_ = _LOCAL_EXPRS.pop(e.id)      # (popped while in use: no recursion through a self-referential definition)
+        try:
+            return _tuple_elements(v_)
+        finally:
+            _LOCAL_EXPRS[e.id] = v_
     if isinstance(e, ast.BinOp) and isinstance(e.op, ast.Add):
         a, b = _tuple_elements(e.left), _tuple_elements(e.right)
         return None if a is None or b is None else a + b
@@ -160,7 +196,10 @@ def _tuple_elements(e):
             try:
                 it_ = a.generators[0].iter
                 if isinstance(it_, ast.Call):
-                    rng = range(*[ast.literal_eval(x) for x in it_.args])
+                    rargs_ = [_int_of(x) for x in it_.args]
+                    if any(v is None for v in rargs_):
+                        return None
+                    rng = range(*rargs_)
                 elif isinstance(it_, ast.Name):
                     rng = list(_MODULE_CONSTS[it_.id])
                 else:
@@ -176,6 +215,8 @@ def _tuple_elements(e):
                 import copy
                 out.append(norm(S().visit(copy.deepcopy(a.elt))))
             return out
+        if isinstance(a, ast.Name) and a.id in _LIST_SIZES:
+            return [f"{a.id}[{i}]" for i in range(_LIST_SIZES[a.id])]
         return _tuple_elements(a)
     return None
 
@@ -299,7 +340,9 @@ def run(ctx):
         _list_sizes(bw[2])
         for r in rets:
             te_ = _tuple_elements(r.value)
-            if te_ is None and not isinstance(r.value, (ast.Name, ast.Constant, ast.Attribute, ast.Subscript)):
+            tuple_like_ = any(isinstance(x, (ast.Tuple, ast.List, ast.Starred)) or (isinstance(x, ast.Call) and isinstance(x.func, ast.Name) and x.func.id in ("tuple", "list"))
+                              for x in ast.walk(r.value)) if r.value is not None else False
+            if te_ is None and tuple_like_ and not isinstance(r.value, (ast.Name, ast.Constant, ast.Attribute, ast.Subscript)):
                 raise AnalysisError(f"{cname}.backward: return expression `{short(r.value, 60)}` is not a tuple this analysis can enumerate")
             n_out = len(te_) if te_ is not None else 1
             ctx.check(n_out == n_in, "R2", bw[0], r, f"{cname}.backward", f"{cname}.backward return arity",
@@ -321,8 +364,20 @@ def run(ctx):
     bw = scf.func("SCF.backward")
     first8 = [a.arg for a in fw.args.args[1:9]]
     lists = [n for n in ast.walk(bw) if isinstance(n, ast.For) and isinstance(n.iter, ast.Call) and norm(n.iter.func) == "enumerate" and isinstance(n.iter.args[0], (ast.List, ast.Tuple))]
+    _deferred_stop = None
+    if not lists:
+        # the bookkeeping of (input -> cotangent slot) is not spelled as `for i, x in enumerate([inputs...])`: any literal list of the eight inputs must at least be in
+        # forward order (a violation otherwise); beyond that this rule cannot follow the slots -- analysis stop, not a verdict
+        lits_ = [n for n in ast.walk(bw) if isinstance(n, (ast.List, ast.Tuple)) and len(n.elts) == 8 and all(isinstance(e, ast.Name) for e in n.elts)
+                 and {e.id for e in n.elts} == set(first8) and isinstance(n.ctx, ast.Load)]
+        for l_ in lits_:
+            ctx.check([e.id for e in l_.elts] == first8, "R2", scf, l_, "SCF.backward", l_, "the list of differentiated inputs is in forward order",
+                      f"SCF.backward lists its differentiated inputs as {[e.id for e in l_.elts]}, forward takes {first8}")
+        if not any(f.message for f in ctx.findings if f.rule.endswith("R2") and "lists its differentiated inputs" in f.message):
+            _deferred_stop = "SCF.backward: the bookkeeping of cotangent slots is not spelled as an enumerate loop over the literal list of inputs; slot alignment not decided for this spelling"
     ok = bool(lists) and [norm(e) for e in lists[0].iter.args[0].elts] == first8
-    ctx.check(ok, "R2", scf, lists[0] if lists else bw, "SCF.backward", lists[0].iter if lists else "differentiated inputs",
+    if lists:
+      ctx.check(ok, "R2", scf, lists[0] if lists else bw, "SCF.backward", lists[0].iter if lists else "differentiated inputs",
               f"SCF.backward differentiates {first8}: the first eight forward inputs in order",
               f"SCF.backward differentiates {[norm(e) for e in lists[0].iter.args[0].elts] if lists else None}, forward takes {first8}")
     if lists:
@@ -354,8 +409,25 @@ def run(ctx):
         if e is None:
             raise AnalysisError(f"SCF.backward: return expression `{short(r.value, 60)}` is not a tuple this analysis can enumerate")
         ok = (e[:8] == [f"grads[{i}]" for i in range(1, 9)] or e[:8] == [f"grads['{nm}']" for nm in first8]) and all(x == "None" for x in e[8:])
+        if not ok and all(x == "None" for x in e[8:]):
+            # name-keyed cotangents: `d['K']` stands for the input that the dictionary literal pairs with K
+            import re as _re
+            mapped = []
+            for x in e[:8]:
+                m_ = _re.fullmatch(r"(\w+)\['([^']+)'\]", x)
+                dk = _DICT_KEYS.get(m_.group(1)) if m_ else None
+                mapped.append(dk[1][dk[0].index(m_.group(2))] if dk and m_.group(2) in dk[0] else None)
+            if all(v is not None for v in mapped):
+                ok = mapped == first8
+                if not ok:
+                    ctx.fail("R2", scf, r, "SCF.backward", "return order",
+                             f"SCF.backward returns the cotangents of {mapped} in that order, forward takes {first8}: the gradients of {[a for a, b in zip(mapped, first8) if a != b]} reach the wrong inputs")
+                    continue
         ctx.check(ok, "R2", scf, r, "SCF.backward", "return order", "SCF.backward returns grads[1..8] followed by None for the non-differentiable inputs",
                   f"SCF.backward returns {e[:10]}...: cotangents do not line up with (M, w, W, gss, gpp, gsp, gp2, hsp)")
+
+    if _deferred_stop:
+        raise AnalysisError(_deferred_stop)
 
     # ------------------------------------------------------------------ R3
     cp = repo.mod("seqm/seqm_functions/cal_par.py")
